@@ -154,7 +154,7 @@ class Operator(Enum):
     LOGICAL_AND = ('and', 12, lambda a, b: a and b)
     LOGICAL_OR = ('or', 13, lambda a, b: a or b)
     TERNARY_ELSE = (':', 14, lambda a, b: (a, b), False)
-    TERNARY_CONDITIONAL = ('?', 15, lambda a, b: b[bool(a)], False)
+    TERNARY_CONDITIONAL = ('?', 15, lambda a, b: get_item(b, bool(a)), False)
 
     def __init__(self,
                  token: str,
